@@ -155,12 +155,18 @@ def adjust(ctx, tpaths):
     if isinstance(n, ast.For) and n is not loop and any(isinstance(x, ast.Raise) for x in ast.walk(n)):
       ev_loop = n
   ok = False
-  if ev_loop is not None:
-    for st in ev_loop.body:
-      if isinstance(st, ast.If) and any(isinstance(x, ast.Raise) for x in st.body):
-        c = U.compare_nf(st.test)
-        if c is not None and c[1] == '<' and c[2] == '0':
-          ok = True
+  if ev_loop is not None and isinstance(ev_loop.target, ast.Name):
+    # the value that is stored into <event>.time is the one compared with 0, before the store
+    stores = [(i, st) for i, st in enumerate(ev_loop.body) if isinstance(st, ast.Assign) and len(st.targets) == 1 and isinstance(st.targets[0], ast.Attribute) and
+              st.targets[0].attr == 'time' and norm_text(st.targets[0].value) == ev_loop.target.id]
+    if len(stores) == 1:
+      si, store = stores[0]
+      stored = norm_text(store.value)
+      for i, st in enumerate(ev_loop.body[:si]):
+        if isinstance(st, ast.If) and any(isinstance(x, ast.Raise) for x in st.body):
+          c = U.compare_full(st.test)
+          if c is not None and c[1] == '<' and c[2] == '0' and c[0] == stored:
+            ok = True
   ctx.ob('ADJUST/event-negative', fi, ev_loop or fi.node, ok, 'event times mapped below zero are rejected' if ok else
          'no rejection of event times mapped below zero', construct='adjust: event time < 0 rejected')
   # rectify_beats delegates to adjust with the interpolating closure
@@ -346,6 +352,8 @@ def repeat(ctx):
 
 
 MUTANTS = [
+    Mutant('seed C13_b: the original event time is tested for negativity, the mapped one is stored', F, "    time = time_func(event.time)\n    if time < 0:", "    time = time_func(event.time)\n    if event.time < 0:", rule='ADJUST/event-negative'),
+    Mutant('the event store precedes the check', F, "    time = time_func(event.time)\n    if time < 0:", "    time = time_func(event.time)\n    event.time = time\n    if time < 0:", rule='ADJUST/event-negative'),
     Mutant('shift: pitch_bends dropped from the chain', F, '      shifted.pitch_bends, shifted.control_changes, shifted.text_annotations,\n      shifted.section_annotations',
            '      shifted.control_changes, shifted.text_annotations,\n      shifted.section_annotations', rule='UNIFORM/shift'),
     Mutant('shift: section_annotations dropped', F, 'shifted.text_annotations,\n      shifted.section_annotations\n  ]', 'shifted.text_annotations\n  ]', rule='UNIFORM/shift'),
